@@ -1,27 +1,11 @@
 import GlyProofs.Front.CreateLemmas
 import GlyProofs.Smiles.Shape
+import GlyModel.Api.Query
 /-
   C13 — Reducing-end anomer and SMILES start atom change only what they should. (Property theorems only.)
 -/
 namespace Gly.Props.C13
-open Gly Gly.Model
-
-/-- Model of `Merger.merge`'s choice of the atom the SMILES is written from: the atoms whose carbon number equals
-    `start` if there is exactly one, else the atom numbered 1 (`positions` lists each atom's number, `x[:,1]`). -/
-def startAtom (numbers : List Int) (start : Int) : Option Nat :=
-  match (List.range numbers.length).filter (fun i => numbers.getD i 0 == start) with
-  | [i] => some i
-  | _ =>
-    match (List.range numbers.length).filter (fun i => numbers.getD i 0 == 1) with
-    | [i] => some i
-    | _ => none      -- `.squeeze().item()` raises unless exactly one atom is numbered 1
-
-/-- Decision logic of the root anomer: `Monomer.to_chirality` is applied only when the residue has no anomer of its
-    own (`is_non_chiral`), so a written suffix wins over the option; any option value other than a/b means undefined. -/
-def rootConfig (suffix : Option Char) (opt : Char) : Option Char :=
-  match suffix with
-  | some c => some c
-  | none => if opt.toLower == 'a' then some 'a' else if opt.toLower == 'b' then some 'b' else none
+open Gly Gly.Model Gly.Query
 
 theorem C13_suffix_wins (c opt : Char) : rootConfig (some c) opt = some c := rfl
 
